@@ -547,10 +547,12 @@ def main(ctx):
         col = common.run_shards(_collect, 16, ctx.seed, n=5000)
     col.merge(common.run_shards(_collect_conc, 8 if ctx.quick else 16, ctx.seed + 77, n=25 if ctx.quick else 600))
     col.merge(common.run_shards(_collect_registry, 4 if ctx.quick else 16, ctx.seed + 99, n=100 if ctx.quick else 2000))
+    # the very first decodes of a process, made by two threads at once (fresh interpreter per scenario, one thread parked mid-way)
+    list(common.first_use_sweep(col, "c02", "known (vendor, code) pairs are materialised as their dictionary class - from the first decode of the process, in every thread"))
     col.merge(common.run_shards(_collect_history, 8 if ctx.quick else 16, ctx.seed + 33, n=30 if ctx.quick else 800))
     for path, rec in common.load_replays(PID):
         col.record(rec["case"], run_case(rec["case"]), nontrivial=True, classes=["replay"])
-    ctx.required_classes = ["decoded-after-refused-inputs", "decoded-after-in-place-edit-of-an-earlier-result", "non-default-flags", "non-default-flags-nested", "unknown-pair", "multi-message", "nested-grouped",
+    ctx.required_classes = ["first-use-parked-mid-call", "decoded-after-refused-inputs", "decoded-after-in-place-edit-of-an-earlier-result", "non-default-flags", "non-default-flags-nested", "unknown-pair", "multi-message", "nested-grouped",
                             "reserved-flag-bits", "grouped", "concurrent-decode-delayed-inside-registry-code", "concurrent-decode-two-delays",
                             "class-defined-after-pair-was-seen"]
     ctx.assumptions = ["Vendor-ID 0 with the V flag is not generated (RFC 6733 4.1.1 forbids it)",
